@@ -413,6 +413,16 @@ func (e *fdEngine) terms(fn *ssa.Function) []*fdTerm {
 			}
 		}
 	}
+	// error parameters of ordinary module functions: whoever passes a stream error in delegates its reporting
+	if fn.Synthetic == "" && e.mode == fdStream && fn.Pkg != nil && strings.HasPrefix(fn.Pkg.Pkg.Path(), modPath) {
+		for _, p := range fn.Params {
+			if isErrT(p.Type()) {
+				t := &fdTerm{val: p, what: "error parameter " + p.Name() + " (passed in by the caller)", alias: map[ssa.Value]bool{p: true}}
+				src[p] = t
+				out = append(out, t)
+			}
+		}
+	}
 	// phis merging terms become terms of their own
 	for changed := true; changed; {
 		changed = false
@@ -471,6 +481,19 @@ func closeAliases(fn *ssa.Function, t *fdTerm) {
 				if uses {
 					t.alias[x] = true
 					changed = true
+				}
+			case *ssa.Extract:
+				// the error result of a module helper that was handed the term: the helper reports it (its own
+				// obligation on its error parameter) or hands it back
+				if cl, ok := x.Tuple.(*ssa.Call); ok && isErrT(x.Type()) && !t.alias[x] && !cl.Call.IsInvoke() {
+					if g := cl.Call.StaticCallee(); g != nil && g.Blocks != nil && g.Pkg != nil && strings.HasPrefix(g.Pkg.Pkg.Path(), modPath) {
+						for i, a := range cl.Call.Args {
+							if t.alias[a] && i < len(g.Params) && isErrT(g.Params[i].Type()) {
+								t.alias[x] = true
+								changed = true
+							}
+						}
+					}
 				}
 			case *ssa.MakeInterface:
 				if t.alias[x.X] && !t.alias[x] {
